@@ -22,6 +22,8 @@ import (
 //	SCHED_OUT          directory for observed.txt, progress.txt (S <sid> / D <sid> / H <info>), reached.json, stacks.txt
 //	SCHED_SKIP         number of schedules of SCHED_IN to skip (the parent restarts after a crashed / hung schedule)
 //	SCHED_WATCHDOG_MS  wall-clock budget of one synctest.Wait / one epilogue call (default 2000)
+//	SCHED_XPARK        0 comparison run | w exhibit run | 1 shape sentinels and additional-acquisition windows park (exec.go)
+//	SCHED_ACQ_TABLE    json file: model label -> mutex acquisition sites that belong to that step (anchors.json "acquisitions")
 func TestSched(t *testing.T) {
 	slog.SetDefault(slog.New(slog.NewTextHandler(io.Discard, nil)))
 	out := os.Getenv("SCHED_OUT")
@@ -30,6 +32,7 @@ func TestSched(t *testing.T) {
 		t.Skip("SCHED_IN / SCHED_OUT not set")
 	}
 	os.MkdirAll(out, 0o755)
+	LoadAcqTable(os.Getenv("SCHED_ACQ_TABLE"))
 	f, err := os.Open(in)
 	if err != nil {
 		t.Fatal(err)
